@@ -210,6 +210,18 @@ def FnArg.providedName : FnArg → Option String
   | .typed _ pat _ => pat.providedName
   | _ => none
 
+/-- a lexically valid identifier: after removing one `r#` there is no further `r#`
+    (identifiers cannot contain `#`) -/
+def identOk (s : String) : Bool :=
+  match (unraw s).toList with
+  | 'r' :: '#' :: _ => false
+  | _ => true
+
+/-- the function names of the input are lexically valid identifiers -/
+def Item.identsOk : Item → Bool
+  | .trait t => t.members.all (fun m => match m with | .fn f => identOk f.sig.ident | _ => true)
+  | item => item.sourceFns.all (fun f => identOk f.sig.ident)
+
 /-! ## C01 — a generated method calls its own function, with the receiver and the arguments in order -/
 
 def methodCallsFn (noDeps : Bool) (selfScoped : Bool) (src : FnItem) (m : GenMember) : Bool :=
@@ -222,8 +234,8 @@ def methodCallsFn (noDeps : Bool) (selfScoped : Bool) (src : FnItem) (m : GenMem
           c.await == src.sig.async_ &&
           c.args == (if noDeps then [] else [if selfScoped then "__impl" else "self"]) ++ (if selfScoped then ps.drop 1 else ps) &&
           allPlain sig.inputs && !(ps.map unraw).contains (unraw sig.ident) &&
-          (nodup (ps.map unraw) || !nodup (((src.sig.userParams noDeps).filterMap FnArg.providedName).map unraw)) &&
-          (typedArgs sig.inputs).length == (src.sig.userParams noDeps).length + (if selfScoped then 1 else 0)
+          (nodup (ps.map unraw) || !nodup (((typedArgs (src.sig.userParams noDeps)).filterMap FnArg.providedName).map unraw)) &&
+          (typedArgs sig.inputs).length == (typedArgs (src.sig.userParams noDeps)).length + (if selfScoped then 1 else 0)
       | none => false
   | _ => false
 
@@ -258,12 +270,13 @@ def namesKept (fnName : String) : List FnArg → List String → Bool
        | none => true) && namesKept fnName as ns
   | _, _ => false
 
-def paramNamesOk (fnIdent : String) (srcParams : List FnArg) (sig : Sig) : Bool :=
+def paramNamesOk (fnIdent : String) (srcParams : List FnArg) (sig : Sig) (reserved : List String := []) : Bool :=
   let names := paramIdents sig.inputs
   let provided := srcParams.filterMap FnArg.providedName
   allPlain sig.inputs && !(names.map unraw).contains (unraw fnIdent) &&
-  -- source bindings that collide among themselves are not valid Rust: no further claim
-  (if nodup (provided.map unraw) then nodup (names.map unraw) && namesKept (unraw fnIdent) srcParams names
+  -- source bindings that collide among themselves (or with the macro's own binder) are not
+  -- valid input: no further claim
+  (if nodup (reserved ++ provided.map unraw) then nodup (names.map unraw) && namesKept (unraw fnIdent) srcParams names
    else names.length == srcParams.length)
 
 def P_C16 (v : Variant) (attr : Toks) (item : Item) (view : View) : Bool :=
@@ -276,7 +289,7 @@ def P_C16 (v : Variant) (attr : Toks) (item : Item) (view : View) : Bool :=
           match m.sig? with
           | some sig =>
               paramNamesOk src.sig.ident (typedArgs (src.sig.userParams noDeps))
-                { sig with inputs := (typedArgs sig.inputs).drop skip }
+                { sig with inputs := (typedArgs sig.inputs).drop skip } (if skip == 1 then ["__impl"] else [])
           | none => false) item.sourceFns ms
       (match item.mode, mainTrait? view with
        | .impl, _ => true
